@@ -59,7 +59,7 @@ def run(ids, tier, props):
     out = []
     for d in sorted(glob.glob(os.path.join(VERIF, "seeded", "*"))):
         sid = os.path.basename(d)
-        if ids and sid not in ids:
+        if not os.path.isdir(d) or (ids and sid not in ids):
             continue
         meta = json.load(open(os.path.join(d, "meta.json")))
         targets = props or meta.get("breaks", [])
